@@ -1,6 +1,10 @@
 SPECIFICATION Spec
 CONSTANTS
   MaxObjs = 9
+  Terminal = {}
+  StrSizes = {1, 2}
+  Aboves = {TRUE, FALSE}
+  Ops <- OpsAll
   AsIsIAdd = TRUE
 CONSTRAINT LevelBound
 INVARIANT EachOnce
